@@ -69,6 +69,10 @@ pub struct ForeignSpec {
     /// put the strings the catalog tables use at the front of the pool
     #[serde(default)]
     pub catalog_first: bool,
+    /// _Validation rows for (table, column) pairs of tables the file does
+    /// not contain (common in real-world packages)
+    #[serde(default)]
+    pub stale_validation: Vec<(String, String)>,
 }
 
 fn strip_for_no_validation(c: &ColSpec) -> ColSpec {
@@ -124,6 +128,12 @@ impl ForeignSpec {
                 if self.validation {
                     validation_rows.push(validation_row(n, c));
                 }
+            }
+        }
+        if self.validation {
+            for (t, c) in self.stale_validation.iter() {
+                let col = ColSpec::new(c, CType::I16);
+                validation_rows.push(validation_row(t, &col));
             }
         }
         let sort = |rows: &mut Vec<Vec<Val>>, nkeys: usize| {
